@@ -1,18 +1,41 @@
-"""shared catalogs / parameters for the reader-pipeline checks (C01-C04)"""
+"""shared catalogs / parameters for the reader-pipeline checks (C01-C04).
+
+The pairing of source and downstream vchannels (sorted one-to-one), the downstream pchannel of each pair and the
+source-pchannel -> stream table are computed HERE (oracle side), independently of the code under test."""
+
+
+def top(v):
+    i = v.rfind("_")
+    return v if i < 0 else v[:i]
+
 
 def coll(name, cid, src_v, tgt_v, tgt_id, parts=None, **kw):
+    pairs = dict(zip(sorted(src_v), sorted(tgt_v)))
     d = {"name": name, "id": cid, "src_v": src_v, "tgt_v": tgt_v, "tgt_id": tgt_id,
-         "parts": parts or {"_default": [cid * 10 + 1, tgt_id * 10 + 1]}}
+         "parts": parts or {"_default": [cid * 10 + 1, tgt_id * 10 + 1], "p1": [cid * 10 + 2, tgt_id * 10 + 2]},
+         "pairs": pairs, "pairq": {s: top(t) for s, t in pairs.items()}, "bypch": {top(s): s for s in src_v}}
     d.update(kw)
     return d
+
 
 # three single-shard collections sharing source pchannel sa and downstream pchannel ta
 CAT_ONEQ = [coll("c1", 101, ["sa_101v0"], ["ta_901v0"], 901),
             coll("c2", 102, ["sa_102v0"], ["ta_902v0"], 902),
             coll("c3", 103, ["sa_103v0"], ["ta_903v0"], 903)]
 
+# PipeRoute_MC CollsX: c1 two shards sa->ta, sb->tb; c2 one shard sa->tb; c3 one shard sb->ta
+CAT_X = [coll("c1", 101, ["sa_101v0", "sb_101v1"], ["ta_901v0", "tb_901v1"], 901),
+         coll("c2", 102, ["sa_102v0"], ["tb_902v0"], 902),
+         coll("c3", 103, ["sb_103v0"], ["ta_903v0"], 903)]
+# PipeRoute_MC CollsH: c1 sa->ta, c2 sb->ta (its handler has to wait for an offered channel), c3 sa->tb (offers tb)
+CAT_H = [coll("c1", 101, ["sa_101v0"], ["ta_901v0"], 901),
+         coll("c2", 102, ["sb_102v0"], ["ta_902v0"], 902),
+         coll("c3", 103, ["sa_103v0"], ["tb_903v0"], 903)]
+
+
 def prelude(names):
     return [{"op": "start", "c": n} for n in names]
+
 
 ASSUME_PIPE = [
     "environment = fake msgdispatcher.Client (one unbuffered channel per source vchannel), fake downstream catalog "
